@@ -54,6 +54,8 @@ type qScenario struct {
 	MCQ     int     `json:"mcq"`
 	Table   uint64  `json:"table"`
 	Steps   []qStep `json:"steps"`
+	// ReadRepair on: a successful Get writes the version it returns to the holders of older copies
+	ReadRepair bool `json:"readrepair"`
 }
 
 type qStepObs struct {
@@ -147,7 +149,7 @@ func runRW(sc *qScenario) (res qResult) {
 		table = 4096
 	}
 	cl, err := startClusterCfg(ClusterOpts{Members: sc.Members, Replicas: sc.R, WQ: sc.W, RQ: sc.RQ, Partitions: 7,
-		TableSize: table, PushMs: 3600000}, quietTweak)
+		TableSize: table, PushMs: 3600000, ReadRepair: sc.ReadRepair}, quietTweak)
 	if err != nil {
 		res.Env = err.Error()
 		return
